@@ -22,11 +22,22 @@ struct Run
 
 void do_embed(Run& run, const Mat& X, const Case& c, bool reseed = true)
 {
-    run.X = X;
+    int N = (int)X.cols();
+    run.idx = iota_indices(N);
+    if (c.i("plabel", 0))
+    {
+        // permuted labels: the sample at position i is labelled perm[i] and stored in column perm[i] (positions != values)
+        Rng g((uint64_t)c.i("dseed", 1) * 131 + 9);
+        g.shuffle(run.idx);
+        run.X.resize(X.rows(), N);
+        for (int i = 0; i < N; ++i)
+            run.X.col(run.idx[i]) = X.col(i);
+    }
+    else
+        run.X = X;
     delete run.cb;
     run.cb = new MatrixCallbacks(run.X);
     configure_callbacks(*run.cb, c);
-    run.idx = iota_indices((int)X.cols());
     if (reseed)
     {
         std::srand((unsigned)c.i("srand", 1));
@@ -85,6 +96,23 @@ void run_meta(const Case& c, Result& r)
         amp = dist_dev(Y1, pert.o.out.embedding) / 1e-9;
     }
     r.num["amplification"] = amp;
+    // noise floor: the response to a perturbation of a few ulps. Some outputs carry rounding noise far above amp * 1e-16
+    // (e.g. Diffusion Map divides by eigenvector entries of order 1e-7: an absolute eigenvector error of 1e-16 is a relative
+    // error of 1e-9 there, whatever the size of the perturbation), which a linear amplification estimate cannot see.
+    double floor_dev = 0;
+    {
+        Mat Xp = X;
+        Rng pg((uint64_t)c.i("tseed", 3) + 199);
+        for (int i = 0; i < Xp.size(); ++i)
+            Xp.data()[i] += 4.4e-16 * spread * pg.gauss();
+        Run pert;
+        do_embed(pert, Xp, c);
+        if (pert.o.what == "ok" && pert.o.out.embedding.allFinite())
+            floor_dev = dist_dev(Y1, pert.o.out.embedding);
+        else
+            floor_dev = 1;
+    }
+    r.num["noise_floor"] = floor_dev;
     if (amp > 1e5)
     {
         // a relative input change of 1e-9 already moves the output by more than 1e-4: the case sits on a discontinuity
@@ -202,7 +230,7 @@ void run_meta(const Case& c, Result& r)
     }
     double dev = dist_dev(Y1, Y2, factor);
     r.maxnum("dev", dev);
-    double tol = std::max(1e-9, amp * delta * 1000);
+    double tol = std::max(std::max(1e-9, amp * delta * 1000), 30 * floor_dev);
     r.num["tol"] = tol;
     if (tol > 1e-3)
     {
